@@ -393,6 +393,9 @@ inductive All2 {α β : Type} (R : α → β → Prop) : List α → List β →
   | nil : All2 R [] []
   | cons {a : α} {b : β} {as : List α} {bs : List β} : R a b → All2 R as bs → All2 R (a :: as) (b :: bs)
 
+theorem All2.nil_right {α β : Type} {R : α → β → Prop} {as : List α} (h : All2 R as []) : as = [] := by
+  cases h; rfl
+
 /-- value of the `j`-th child of the target -/
 def V (ρ : Env) (F : FunI) (os : List Expr) (j : Nat) : Int := evalZ ρ F (pick os j)
 
@@ -547,5 +550,470 @@ theorem matchChildren_spec (C : List Name) (k : AC) (os : List Expr) (plain : Li
         rw [k.foldV_perm (hp.map _)]
         simp only [List.map_cons, AC.foldV_cons, k.op_assoc, e3 σ he hd ρ F, hc]
       · simp at hr
+
+/-! ### splitting the children of a template sum/product -/
+
+def nonVars (C : List Name) : List Expr → List Expr
+  | [] => []
+  | c :: cs => if isCandVar C c then nonVars C cs else c :: nonVars C cs
+
+theorem op_swap (k : AC) (a n p : Int) : k.op a (k.op n p) = k.op n (k.op a p) := by
+  rw [← k.op_assoc, k.op_comm a n, k.op_assoc]
+
+theorem split_fold (C : List Name) (k : AC) (σ : Sub) (ρ : Env) (F : FunI) : ∀ cs : List Expr,
+    k.foldV (cs.map fun c => evalZ ρ F (subst σ c)) =
+      k.op (k.foldV ((nonVars C cs).map fun c => evalZ ρ F (subst σ c)))
+           (k.foldV ((plainNames C cs).map (varVal σ ρ F))) := by
+  intro cs
+  induction cs with
+  | nil => simp [nonVars, plainNames, k.unit_op]
+  | cons c cs ih =>
+    by_cases hc : isCandVar C c = true
+    · -- a declared free variable
+      cases c with
+      | var x =>
+        simp only [isCandVar] at hc
+        simp only [List.map_cons, AC.foldV_cons, nonVars, isCandVar, hc, plainNames, if_true, ih]
+        rw [op_swap]; rfl
+      | _ => simp [isCandVar] at hc
+    · have hp : plainNames C (c :: cs) = plainNames C cs := by
+        cases c <;> simp_all [plainNames, isCandVar]
+      simp only [List.map_cons, AC.foldV_cons, nonVars, hc, hp, ih, k.op_assoc]
+      simp [k.op_assoc]
+
+theorem plainNames_in (C : List Name) : ∀ cs : List Expr, ∀ x ∈ plainNames C cs, C.contains x = true := by
+  intro cs
+  induction cs with
+  | nil => simp [plainNames]
+  | cons c cs ih =>
+    intro x hx
+    cases c <;> simp only [plainNames] at hx <;> try exact ih x hx
+    split at hx
+    · simp at hx; rcases hx with rfl | hx
+      · assumption
+      · exact ih x hx
+    · exact ih x hx
+
+theorem nonVars_nil (C : List Name) : ∀ cs : List Expr, nonVars C cs = [] → cs ≠ [] → plainNames C cs ≠ [] := by
+  intro cs
+  induction cs with
+  | nil => intro _ h; exact absurd rfl h
+  | cons c cs ih =>
+    intro h _
+    by_cases hc : isCandVar C c = true
+    · cases c with
+      | var x => simp only [isCandVar] at hc; simp only [plainNames, hc, if_true]; simp
+      | _ => simp [isCandVar] at hc
+    · simp [nonVars, hc] at h
+
+theorem pick_zipIdx {os : List Expr} {p : Expr × Nat} (h : p ∈ os.zipIdx) : pick os p.2 = p.1 := by
+  have := List.mem_zipIdx_iff_getElem?.mp h
+  simp [pick, List.getD, this]
+
+theorem range_V (ρ : Env) (F : FunI) (os : List Expr) :
+    (List.range os.length).map (V ρ F os) = os.map (evalZ ρ F) := by
+  apply List.ext_getElem
+  · simp
+  · intro i h1 h2
+    simp at h1
+    simp [V, pick, List.getD, h1]
+
+theorem substL_map (σ : Sub) : ∀ cs : List Expr, substL σ cs = cs.map (subst σ)
+  | [] => rfl
+  | c :: cs => by simp [substL, substL_map σ cs]
+
+theorem evalL_map (ρ : Env) (F : FunI) : ∀ cs : List Expr, evalL ρ F cs = cs.map (evalZ ρ F)
+  | [] => rfl
+  | c :: cs => by simp [evalL, evalL_map ρ F cs]
+
+/-! ### the main statement, per template -/
+
+/-- what the unifier guarantees for one template `t`: every record it returns extends one of the
+    records it was given, binds declared free variables only, and makes `t` evaluate to the target -/
+def Sound (C : List Name) (vf : Name → Name → Bool) (t : Expr) : Prop :=
+  ∀ (o : Expr) (us : List URec) (r : URec), (∀ u ∈ us, KeysIn C u) → r ∈ unif C vf t o us →
+    (∃ u ∈ us, Ext u r) ∧ KeysIn C r ∧ Sat C r t o
+
+theorem unifVar_spec (C : List Name) (x : Name) (o : Expr) (us : List URec) (r : URec)
+    (hus : ∀ u ∈ us, KeysIn C u) (hr : r ∈ unifVar C x o us) :
+    (∃ u ∈ us, Ext u r) ∧ KeysIn C r ∧
+      ((C.contains x = true ∧ lookupE r.lmap x = some o) ∨ (C.contains x = false ∧ o = .var x)) := by
+  unfold unifVar at hr
+  split at hr
+  · rename_i hc
+    obtain ⟨u, hu, huu⟩ := mem_unifyMany.mp hr
+    obtain ⟨g1, g2, g3⟩ := unify_spec (C := C) huu
+    exact ⟨⟨u, hu, g1⟩, g3 (hus u hu) (KeysIn_ofEq hc), Or.inl ⟨hc, g2 _ _ (lookup_ofEq _ _)⟩⟩
+  · rename_i hc
+    split at hr
+    · rename_i y
+      split at hr
+      · rename_i hxy
+        exact ⟨⟨r, hr, Ext.refl _⟩, hus r hr, Or.inr ⟨by simpa using hc, by rw [hxy]⟩⟩
+      · simp at hr
+    · simp at hr
+
+theorem unifRows_ok (C : List Name) (vf : Name → Name → Bool) (os : List Expr) (us : List URec)
+    (hus : ∀ u ∈ us, KeysIn C u) : ∀ cs : List Expr, (∀ c ∈ cs, Sound C vf c) →
+    RowsOK C os us (nonVars C cs) (unifRows C vf cs os us) := by
+  intro cs
+  induction cs with
+  | nil => intro _; rw [unifRows]; exact All2.nil
+  | cons c cs ih =>
+    intro h
+    rw [unifRows]
+    by_cases hc : isCandVar C c = true
+    · simp only [hc, if_true, nonVars]
+      exact ih (fun c' hc' => h c' (List.mem_cons_of_mem _ hc'))
+    · simp only [hc, nonVars]
+      refine All2.cons ?_ (ih (fun c' hc' => h c' (List.mem_cons_of_mem _ hc')))
+      intro jp hjp r1 hr1
+      simp only [List.mem_filter, List.mem_map] at hjp
+      obtain ⟨⟨oj, hoj, rfl⟩, _⟩ := hjp
+      simp only at hr1 ⊢
+      rw [pick_zipIdx hoj]
+      exact h c List.mem_cons_self oj.1 us r1 hus hr1
+
+theorem runAC_spec (C : List Name) (vf : Name → Name → Bool) (k : AC) (cs os : List Expr) (us : List URec)
+    (hus : ∀ u ∈ us, KeysIn C u) (hcs : ∀ c ∈ cs, Sound C vf c) (hne : cs ≠ []) (r : URec)
+    (hr : r ∈ runAC k os (plainNames C cs) us (unifRows C vf cs os us)) :
+    (∃ u ∈ us, Ext u r) ∧ KeysIn C r ∧
+      ∀ σ, Extends r σ → DomC C σ → ∀ ρ F,
+        evalZ ρ F (subst σ (k.mk cs)) = k.foldV (os.map (evalZ ρ F)) := by
+  unfold runAC at hr
+  have hrows := unifRows_ok C vf os us hus cs hcs
+  obtain ⟨e1, e2, e3, e4⟩ := matchChildren_spec C k os (plainNames C cs) _ us (plainNames_in C cs) hus
+    _ _ URec.empty _ r hrows (KeysIn_empty C) hr
+  refine ⟨e4 ?_, e2, ?_⟩
+  · by_cases hr0 : unifRows C vf cs os us = []
+    · right; right
+      refine ⟨by simp [hr0], nonVars_nil C cs ?_ hne⟩
+      rw [hr0] at hrows
+      exact hrows.nil_right
+    · exact Or.inl hr0
+  · intro σ he hd ρ F
+    have : subst σ (k.mk cs) = k.mk (substL σ cs) := by cases k <;> simp [AC.mk, subst]
+    rw [this, evalZ_mk, substL_map, List.map_map]
+    have := e3 σ he hd ρ F
+    rw [range_V] at this
+    rw [← this, ← split_fold]
+    rfl
+
+theorem identVars_in (C : List Name) (vf : Name → Name → Bool) (cs : List Expr) (x : Name)
+    (hx : x ∈ identVars C vf cs) : C.contains x = true := by
+  unfold identVars at hx
+  split at hx
+  · rename_i a b
+    split at hx
+    · rename_i x' y' h1 h2
+      simp only [isCandVar] at h1 h2
+      split at hx
+      · simp at hx; subst hx; exact h1
+      · split at hx <;> simp at hx <;> rcases hx with rfl | rfl <;> assumption
+    · rename_i x' _ h1 h2
+      simp only [isCandVar] at h1
+      simp at hx; subst hx; exact h1
+    · rename_i _ y' h1 h2
+      simp only [isCandVar] at h2
+      simp at hx; subst hx; exact h2
+    · simp at hx
+  · simp at hx
+
+theorem unifAC_spec (C : List Name) (vf : Name → Name → Bool) (k : AC) (cs : List Expr) (o : Expr)
+    (us : List URec) (hus : ∀ u ∈ us, KeysIn C u) (hcs : ∀ c ∈ cs, Sound C vf c) (hne : cs ≠ []) (r : URec)
+    (hr : r ∈ unifAC C vf k cs o us) :
+    (∃ u ∈ us, Ext u r) ∧ KeysIn C r ∧ Sat C r (k.mk cs) o := by
+  rw [unifAC] at hr
+  split at hr
+  · split at hr
+    · rename_i os hos
+      obtain ⟨e1, e2, e3⟩ := runAC_spec C vf k cs os us hus hcs hne r hr
+      refine ⟨e1, e2, ?_⟩
+      intro σ he hd ρ F
+      rw [e3 σ he hd ρ F]
+      have : o = k.mk os := by
+        unfold acTarget at hos
+        split at hos <;> simp_all [AC.mk]
+      rw [this, evalZ_mk]
+    · simp at hr
+  · -- unification modulo identity
+    simp only [List.mem_flatMap] at hr
+    obtain ⟨x, hx, hr⟩ := hr
+    have hus' : ∀ u ∈ unifyMany us (URec.ofEq x k.ident), KeysIn C u := by
+      intro u hu
+      obtain ⟨u0, hu0, huu⟩ := mem_unifyMany.mp hu
+      have hxC : C.contains x = true := identVars_in C vf cs x hx
+      exact (unify_spec (C := C) huu).2.2 (hus u0 hu0) (KeysIn_ofEq hxC)
+    obtain ⟨⟨u1, hu1, e1⟩, e2, e3⟩ := runAC_spec C vf k cs [k.ident, o] _ hus' hcs hne r hr
+    obtain ⟨u0, hu0, huu⟩ := mem_unifyMany.mp hu1
+    refine ⟨⟨u0, hu0, (unify_spec (C := C) huu).1.trans e1⟩, e2, ?_⟩
+    intro σ he hd ρ F
+    rw [e3 σ he hd ρ F]
+    simp [evalZ_ident, k.unit_op, k.op_unit]
+
+/-! ### lists of children, pairs -/
+
+theorem unifL_spec (C : List Name) (vf : Name → Name → Bool) : ∀ (cs os : List Expr) (us : List URec) (r : URec),
+    (∀ c ∈ cs, Sound C vf c) → cs.length = os.length → (∀ u ∈ us, KeysIn C u) → r ∈ unifL C vf cs os us →
+    (∃ u ∈ us, Ext u r) ∧ KeysIn C r ∧
+      ∀ σ, Extends r σ → DomC C σ → ∀ ρ F, evalL ρ F (substL σ cs) = evalL ρ F os := by
+  intro cs
+  induction cs with
+  | nil =>
+    intro os us r _ hl hus hr
+    cases os with
+    | nil =>
+      rw [unifL] at hr
+      · exact ⟨⟨r, hr, Ext.refl _⟩, hus r hr, fun _ _ _ _ _ => rfl⟩
+      · intros; simp_all
+    | cons => simp at hl
+  | cons c cs ih =>
+    intro os us r hcs hl hus hr
+    cases os with
+    | nil => simp at hl
+    | cons o os =>
+      rw [unifL] at hr
+      have hc := hcs c List.mem_cons_self
+      have hus' : ∀ u ∈ unif C vf c o us, KeysIn C u := fun u hu => (hc o us u hus hu).2.1
+      obtain ⟨⟨u', hu', e1⟩, e2, e3⟩ := ih os _ r (fun c' h' => hcs c' (List.mem_cons_of_mem _ h')) (by simpa using hl) hus' hr
+      obtain ⟨⟨u, hu, g1⟩, _, g3⟩ := hc o us u' hus hu'
+      refine ⟨⟨u, hu, g1.trans e1⟩, e2, ?_⟩
+      intro σ he hd ρ F
+      simp only [substL, evalL, e3 σ he hd ρ F, (g3.mono e1) σ he hd ρ F]
+
+theorem unifK_spec (C : List Name) (vf : Name → Name → Bool) : ∀ (cs os : List (Name × Expr)) (us : List URec) (r : URec),
+    (∀ c ∈ cs, Sound C vf c.2) → cs.map (·.1) = os.map (·.1) → (∀ u ∈ us, KeysIn C u) → r ∈ unifK C vf cs os us →
+    (∃ u ∈ us, Ext u r) ∧ KeysIn C r ∧
+      ∀ σ, Extends r σ → DomC C σ → ∀ ρ F, evalK ρ F (substK σ cs) = evalK ρ F os := by
+  intro cs
+  induction cs with
+  | nil =>
+    intro os us r _ hl hus hr
+    cases os with
+    | nil =>
+      rw [unifK] at hr
+      · exact ⟨⟨r, hr, Ext.refl _⟩, hus r hr, fun _ _ _ _ _ => rfl⟩
+      · intros; simp_all
+    | cons => simp at hl
+  | cons c cs ih =>
+    intro os us r hcs hl hus hr
+    cases os with
+    | nil => simp at hl
+    | cons o os =>
+      obtain ⟨kc, c⟩ := c
+      obtain ⟨ko, o⟩ := o
+      rw [unifK] at hr
+      simp at hl
+      have hc := hcs (kc, c) List.mem_cons_self
+      have hus' : ∀ u ∈ unif C vf c o us, KeysIn C u := fun u hu => (hc o us u hus hu).2.1
+      obtain ⟨⟨u', hu', e1⟩, e2, e3⟩ := ih os _ r (fun c' h' => hcs c' (List.mem_cons_of_mem _ h')) (by simpa using hl.2) hus' hr
+      obtain ⟨⟨u, hu, g1⟩, _, g3⟩ := hc o us u' hus hu'
+      refine ⟨⟨u, hu, g1.trans e1⟩, e2, ?_⟩
+      intro σ he hd ρ F
+      simp only [substK, evalK, e3 σ he hd ρ F, (g3.mono e1) σ he hd ρ F, hl.1]
+
+theorem bin_spec (C : List Name) (vf : Name → Name → Bool) {a b a' b' : Expr} (ha : Sound C vf a) (hb : Sound C vf b)
+    {us : List URec} {r : URec} (hus : ∀ u ∈ us, KeysIn C u) (hr : r ∈ unif C vf a a' (unif C vf b b' us)) :
+    (∃ u ∈ us, Ext u r) ∧ KeysIn C r ∧ Sat C r a a' ∧ Sat C r b b' := by
+  have hus' : ∀ u ∈ unif C vf b b' us, KeysIn C u := fun u hu => (hb b' us u hus hu).2.1
+  obtain ⟨⟨u', hu', e1⟩, e2, e3⟩ := ha a' _ r hus' hr
+  obtain ⟨⟨u, hu, g1⟩, _, g3⟩ := hb b' us u' hus hu'
+  exact ⟨⟨u, hu, g1.trans e1⟩, e2, e3, g3.mono e1⟩
+
+theorem sizeL_mem {c : Expr} : ∀ {cs : List Expr}, c ∈ cs → c.size ≤ Expr.sizeL cs
+  | [], h => by simp at h
+  | d :: ds, h => by
+    simp only [Expr.sizeL]
+    rcases List.mem_cons.mp h with rfl | h
+    · omega
+    · have := sizeL_mem h; omega
+
+theorem sizeK_mem {p : Name × Expr} : ∀ {cs : List (Name × Expr)}, p ∈ cs → p.2.size ≤ Expr.sizeK cs
+  | [], h => by simp at h
+  | (k, d) :: ds, h => by
+    simp only [Expr.sizeK]
+    rcases List.mem_cons.mp h with rfl | h
+    · simp
+    · have := sizeK_mem h; omega
+
+theorem wfTL_mem {c : Expr} : ∀ {cs : List Expr}, wfTL cs = true → c ∈ cs → wfT c = true
+  | [], _, h => by simp at h
+  | d :: ds, hw, h => by
+    simp only [wfTL, Bool.and_eq_true] at hw
+    rcases List.mem_cons.mp h with rfl | h
+    · exact hw.1
+    · exact wfTL_mem hw.2 h
+
+theorem wfTK_mem {p : Name × Expr} : ∀ {cs : List (Name × Expr)}, wfTK cs = true → p ∈ cs → wfT p.2 = true
+  | [], _, h => by simp at h
+  | (k, d) :: ds, hw, h => by
+    simp only [wfTK, Bool.and_eq_true] at hw
+    rcases List.mem_cons.mp h with rfl | h
+    · exact hw.1
+    · exact wfTK_mem hw.2 h
+
+/-- **Soundness of the modelled unifier**, for every well-formed template -/
+theorem sound_all (C : List Name) (vf : Name → Name → Bool) :
+    ∀ (n : Nat) (t : Expr), t.size ≤ n → wfT t = true → Sound C vf t := by
+  intro n
+  induction n with
+  | zero => intro t h; cases t <;> simp [Expr.size] at h
+  | succ n ih =>
+    intro t hs hw
+    have ihL : ∀ cs : List Expr, Expr.sizeL cs ≤ n → wfTL cs = true → ∀ c ∈ cs, Sound C vf c :=
+      fun cs h1 h2 c hc => ih c (Nat.le_trans (sizeL_mem hc) h1) (wfTL_mem h2 hc)
+    have ihK : ∀ cs : List (Name × Expr), Expr.sizeK cs ≤ n → wfTK cs = true → ∀ p ∈ cs, Sound C vf p.2 :=
+      fun cs h1 h2 p hp => ih p.2 (Nat.le_trans (sizeK_mem hp) h1) (wfTK_mem h2 hp)
+    intro o us r hus hr
+    cases t with
+    | const c =>
+      rw [unif] at hr
+      split at hr
+      · rename_i hb
+        refine ⟨⟨r, hr, Ext.refl _⟩, hus r hr, ?_⟩
+        intro σ _ _ ρ F
+        rw [← beq_eq _ _ hb]; simp [subst]
+      · simp at hr
+    | var x =>
+      rw [unif] at hr
+      obtain ⟨e1, e2, e3⟩ := unifVar_spec C x o us r hus hr
+      refine ⟨e1, e2, ?_⟩
+      intro σ he hd ρ F
+      rcases e3 with ⟨_, hl⟩ | ⟨hc, ho⟩
+      · simp [subst, he _ _ hl]
+      · simp [subst, hd x hc, ho]
+    | sum cs =>
+      rw [unif] at hr
+      simp only [Expr.size] at hs
+      simp only [wfT, Bool.and_eq_true] at hw
+      exact unifAC_spec C vf .sum cs o us hus (ihL cs (by omega) hw.2) (by intro h; simp [h] at hw) r hr
+    | prod cs =>
+      rw [unif] at hr
+      simp only [Expr.size] at hs
+      simp only [wfT, Bool.and_eq_true] at hw
+      exact unifAC_spec C vf .prod cs o us hus (ihL cs (by omega) hw.2) (by intro h; simp [h] at hw) r hr
+    | quot a b =>
+      simp only [Expr.size] at hs
+      simp only [wfT, Bool.and_eq_true] at hw
+      cases o with
+      | quot a' b' =>
+        rw [unif] at hr
+        obtain ⟨e1, e2, e3, e4⟩ := bin_spec C vf (ih a (by omega) hw.1) (ih b (by omega) hw.2) hus hr
+        refine ⟨e1, e2, ?_⟩
+        intro σ he hd ρ F
+        simp only [subst, evalZ, e3 σ he hd ρ F, e4 σ he hd ρ F]
+      | _ => simp [unif] at hr
+    | pow a b =>
+      simp only [Expr.size] at hs
+      simp only [wfT, Bool.and_eq_true] at hw
+      cases o with
+      | pow a' b' =>
+        rw [unif] at hr
+        obtain ⟨e1, e2, e3, e4⟩ := bin_spec C vf (ih a (by omega) hw.1) (ih b (by omega) hw.2) hus hr
+        refine ⟨e1, e2, ?_⟩
+        intro σ he hd ρ F
+        simp only [subst, evalZ, e3 σ he hd ρ F, e4 σ he hd ρ F]
+      | _ => simp [unif] at hr
+    | sub a b =>
+      simp only [Expr.size] at hs
+      simp only [wfT, Bool.and_eq_true] at hw
+      cases o with
+      | sub a' b' =>
+        rw [unif] at hr
+        obtain ⟨e1, e2, e3, e4⟩ := bin_spec C vf (ih a (by omega) hw.1) (ih b (by omega) hw.2) hus hr
+        refine ⟨e1, e2, ?_⟩
+        intro σ he hd ρ F
+        simp only [subst, evalZ, e3 σ he hd ρ F, e4 σ he hd ρ F]
+      | _ => simp [unif] at hr
+    | attr a nm =>
+      simp only [Expr.size] at hs
+      simp only [wfT] at hw
+      cases o with
+      | attr a' nm' =>
+        rw [unif] at hr
+        split at hr
+        · rename_i hnm
+          obtain ⟨e1, e2, e3⟩ := ih a (by omega) hw _ us r hus hr
+          refine ⟨e1, e2, ?_⟩
+          intro σ he hd ρ F
+          simp only [subst, evalZ, e3 σ he hd ρ F, hnm]
+        · simp at hr
+      | _ => simp [unif] at hr
+    | cmp op a b =>
+      simp only [Expr.size] at hs
+      simp only [wfT, Bool.and_eq_true] at hw
+      cases o with
+      | cmp op' a' b' =>
+        rw [unif] at hr
+        split at hr
+        · rename_i hop
+          obtain ⟨e1, e2, e3, e4⟩ := bin_spec C vf (ih a (by omega) hw.1) (ih b (by omega) hw.2) hus hr
+          refine ⟨e1, e2, ?_⟩
+          intro σ he hd ρ F
+          simp only [subst, evalZ, e3 σ he hd ρ F, e4 σ he hd ρ F, hop]
+        · simp at hr
+      | _ => simp [unif] at hr
+    | lnot a =>
+      simp only [Expr.size] at hs
+      simp only [wfT] at hw
+      cases o with
+      | lnot a' =>
+        rw [unif] at hr
+        obtain ⟨e1, e2, e3⟩ := ih a (by omega) hw _ us r hus hr
+        refine ⟨e1, e2, ?_⟩
+        intro σ he hd ρ F
+        simp only [subst, evalZ, e3 σ he hd ρ F]
+      | _ => simp [unif] at hr
+    | ite c t e =>
+      simp only [Expr.size] at hs
+      simp only [wfT, Bool.and_eq_true] at hw
+      cases o with
+      | ite c' t' e' =>
+        rw [unif] at hr
+        have he' := ih e (by omega) hw.2
+        have hus1 : ∀ u ∈ unif C vf e e' us, KeysIn C u := fun u hu => (he' e' us u hus hu).2.1
+        obtain ⟨⟨u1, hu1, e1⟩, e2, e3, e4⟩ := bin_spec C vf (ih c (by omega) hw.1.1) (ih t (by omega) hw.1.2) hus1 hr
+        obtain ⟨⟨u, hu, g1⟩, _, g3⟩ := he' e' us u1 hus hu1
+        refine ⟨⟨u, hu, g1.trans e1⟩, e2, ?_⟩
+        intro σ he hd ρ F
+        simp only [subst, evalZ, e3 σ he hd ρ F, e4 σ he hd ρ F, (g3.mono e1) σ he hd ρ F]
+      | _ => simp [unif] at hr
+    | call f args kw =>
+      simp only [Expr.size] at hs
+      simp only [wfT, Bool.and_eq_true] at hw
+      cases o with
+      | call g args' kw' =>
+        rw [unif] at hr
+        split at hr
+        · simp at hr
+        · split at hr
+          · simp at hr
+          · rename_i hlen
+            split at hr
+            · simp at hr
+            · rename_i hkeys
+              simp only [keysEq, Bool.not_eq_true', Bool.not_eq_false, bne_iff_ne, ne_eq, Decidable.not_not, beq_iff_eq] at hkeys hlen
+              have hA := ihL args (by omega) hw.1
+              have hK := ihK kw (by omega) hw.2
+              have hus1 : ∀ u ∈ unifL C vf args args' us, KeysIn C u :=
+                fun u hu => (unifL_spec C vf args args' us u hA hlen hus hu).2.1
+              have hus2 : ∀ u ∈ unifK C vf kw kw' (unifL C vf args args' us), KeysIn C u :=
+                fun u hu => (unifK_spec C vf kw kw' _ u hK hkeys hus1 hu).2.1
+              obtain ⟨⟨u2, hu2, e1⟩, e2, e3⟩ := unifVar_spec C f (.var g) _ r hus2 hr
+              obtain ⟨⟨u1, hu1, g1⟩, _, g3⟩ := unifK_spec C vf kw kw' _ u2 hK hkeys hus1 hu2
+              obtain ⟨⟨u, hu, f1⟩, _, f3⟩ := unifL_spec C vf args args' us u1 hA hlen hus hu1
+              refine ⟨⟨u, hu, f1.trans (g1.trans e1)⟩, e2, ?_⟩
+              intro σ he hd ρ F
+              have hf : substF σ f = g := by
+                unfold substF
+                rcases e3 with ⟨_, hl⟩ | ⟨hc, ho⟩
+                · simp [he _ _ hl]
+                · simp at ho; simp [hd f hc, ho]
+              simp only [subst, evalZ, hf, f3 σ (he.mono (g1.trans e1)) hd ρ F, g3 σ (he.mono e1) hd ρ F]
+      | _ => simp [unif] at hr
+    | land cs => rw [unif] at hr; simp at hr
+    | lor cs => rw [unif] at hr; simp at hr
+    | min cs => rw [unif] at hr; simp at hr
+    | max cs => rw [unif] at hr; simp at hr
 
 end Dagrt.Match
